@@ -265,7 +265,11 @@ func runStage(b *build, prop string, st Stage, tier string, seed uint64, workers
 					sh := fmt.Sprintf("ulimit -v %d; exec \"$0\" \"$@\"", st.MemGB*1024*1024)
 					cmd = exec.Command("sh", append([]string{"-c", sh, bin}, args...)...)
 				}
-				cmd.Env = append(os.Environ(), "GOMAXPROCS=4", "GORACE=halt_on_error=1 exitcode=66", "GOTRACEBACK=all")
+				spin := "30000"
+				if workers > 8 {
+					spin = "0" // more workers than half the cores: spinning would only steal cycles
+				}
+				cmd.Env = append(os.Environ(), "GOMAXPROCS=4", "GORACE=halt_on_error=1 exitcode=66", "GOTRACEBACK=all", "SIMRT_SPIN="+spin)
 				var stderr bytes.Buffer
 				cmd.Stderr = &stderr
 				cmd.Stdout = nil
@@ -295,6 +299,10 @@ func runStage(b *build, prop string, st Stage, tier string, seed uint64, workers
 				}
 				mu.Lock()
 				switch {
+				case code == 97:
+					// watchdog: the running task reached no scheduling point for a long real time
+					sr.Agg.NInconcl++
+					sr.Crashes = append(sr.Crashes, fmt.Sprintf("run %d: no scheduling point within the watchdog (spin or native block): %s", died, watchdogFrame(stderr.String())))
 				case code == 2:
 					mu.Unlock()
 					fmt.Fprintln(os.Stderr, stderr.String())
@@ -335,6 +343,21 @@ func runStage(b *build, prop string, st Stage, tier string, seed uint64, workers
 	sr.WallS = time.Since(start).Seconds()
 	sr.Distinct = len(sr.fps)
 	return sr
+}
+
+// watchdogFrame names the innermost fq frame of the goroutine that was running.
+func watchdogFrame(dump string) string {
+	for _, blk := range strings.Split(dump, "\n\n") {
+		if !strings.Contains(blk, "[runnable") && !strings.Contains(blk, "[running") {
+			continue
+		}
+		for _, f := range fqFrames(blk) {
+			if !isHarnessFrame(f) {
+				return strings.TrimPrefix(f, "github.com/wader/fq/")
+			}
+		}
+	}
+	return "unknown frame"
 }
 
 func firstLine(s string) string {
@@ -548,7 +571,12 @@ func check(id, tier string) int {
 		path := filepath.Join(verifDir, "replays", fmt.Sprintf("%s-%s.json", id, shortHash(c)))
 		jb, _ := json.MarshalIndent(rp, "", " ")
 		os.WriteFile(path, jb, 0o644)
+		// the whole-fq harnesses inherit some nondeterminism from Go map iteration inside
+		// fq/gojq (order of lazy reads): a violation counts if any of a few replays shows it
 		code, out := runReplay(b, path)
+		for attempt := 0; code == 3 && attempt < 4; attempt++ {
+			code, out = runReplay(b, path)
+		}
 		switch code {
 		case 1:
 			if rp.Race {
